@@ -486,5 +486,109 @@ theorem C11_get_transitions_exact (attr : Name) (ov auto : Bool) (ops : List Op)
     | none => simp [hk]
     | some ts => simp [hk]
 
+/-! ### helper naming is injective -/
+
+/-- what a helper name stands for -/
+inductive Kind
+  | isK (s : Name)        -- `is_<state>`
+  | toK (s : Name)        -- `to_<state>` (the auto transition's event method)
+  | mayToK (s : Name)     -- `may_to_<state>`
+  | evK (e : Name)        -- a user event's method
+  | mayK (e : Name)       -- `may_<event>`
+  | triggerK | mayTriggerK
+  deriving DecidableEq, Repr
+
+def helperName (attr : Name) : Kind → Name
+  | .isK s => isName attr s
+  | .toK s => toName attr s
+  | .mayToK s => mayName (toName attr s)
+  | .evK e => e
+  | .mayK e => mayName e
+  | .triggerK => sTrigger
+  | .mayTriggerK => sMayTrigger
+
+/-- name hygiene of a user event: not named like a helper -/
+def UserEv (e : Name) : Prop := ¬ sIs <+: e ∧ ¬ sTo <+: e ∧ ¬ sMay <+: e ∧ e ≠ sTrigger
+
+def Kind.Hyg : Kind → Prop
+  | .evK e => UserEv e
+  | .mayK e => UserEv e
+  | _ => True
+
+theorem mayName_inj (a b : Name) (h : mayName a = mayName b) : a = b := List.append_cancel_left h
+theorem mayName_prefix (e : Name) : sMay <+: mayName e := List.prefix_append _ _
+
+/-- **C11, helper names are injective** on (kind, state/event), for every `model_attribute`, provided
+user events are not themselves named `is_…`, `to_…`, `may_…` or `trigger`: two different helpers never
+compete for one attribute name (so `_checked_assignment` never drops a helper because of another). -/
+theorem C11_names_injective (attr : Name) (k1 k2 : Kind) (h1 : k1.Hyg) (h2 : k2.Hyg)
+    (h : helperName attr k1 = helperName attr k2) : k1 = k2 := by
+  have e1 : ∀ s : Name, isName attr s ≠ sTrigger := by intro s; simp [isName, sIs, sTrigger]
+  have e2 : ∀ s : Name, toName attr s ≠ sTrigger := by intro s; simp [toName, sTo, sTrigger]
+  have e3 : ∀ s t : Name, isName attr s ≠ toName attr t := by intro s t; simp [isName, toName, sIs, sTo]
+  have e4 : ∀ s e : Name, isName attr s ≠ mayName e := by intro s e; simp [isName, mayName, sIs, sMay]
+  have e5 : ∀ s e : Name, toName attr s ≠ mayName e := by intro s e; simp [toName, mayName, sTo, sMay]
+  have e6 : ∀ e : Name, mayName e ≠ sTrigger := by intro e; simp [mayName, sMay, sTrigger]
+  have e7 : ∀ s : Name, isName attr s ≠ sMayTrigger := fun s => e4 s sTrigger
+  have e8 : ∀ s : Name, toName attr s ≠ sMayTrigger := fun s => e5 s sTrigger
+  have e9 : sTrigger ≠ sMayTrigger := by decide
+  cases k1 <;> cases k2 <;> simp only [helperName, Kind.Hyg] at h h1 h2
+  -- isK
+  · rw [isName_inj _ _ _ h]
+  · exact absurd h (e3 _ _)
+  · exact absurd h (e4 _ _)
+  · exact absurd (h ▸ isName_prefix attr _) h2.1
+  · exact absurd h (e4 _ _)
+  · exact absurd h (e1 _)
+  · exact absurd h (e7 _)
+  -- toK
+  · exact absurd h.symm (e3 _ _)
+  · rw [toName_inj _ _ _ h]
+  · exact absurd h (e5 _ _)
+  · exact absurd (h ▸ toName_prefix attr _) h2.2.1
+  · exact absurd h (e5 _ _)
+  · exact absurd h (e2 _)
+  · exact absurd h (e8 _)
+  -- mayToK
+  · exact absurd h.symm (e4 _ _)
+  · exact absurd h.symm (e5 _ _)
+  · rw [toName_inj _ _ _ (mayName_inj _ _ h)]
+  · exact absurd (h ▸ mayName_prefix _) h2.2.2.1
+  · exact absurd ((mayName_inj _ _ h) ▸ toName_prefix attr _) h2.2.1
+  · exact absurd h (e6 _)
+  · exact absurd (mayName_inj _ _ h) (e2 _)
+  -- evK
+  · exact absurd (h.symm ▸ isName_prefix attr _) h1.1
+  · exact absurd (h.symm ▸ toName_prefix attr _) h1.2.1
+  · exact absurd (h.symm ▸ mayName_prefix _) h1.2.2.1
+  · rw [h]
+  · exact absurd (h.symm ▸ mayName_prefix _) h1.2.2.1
+  · exact absurd h h1.2.2.2
+  · exact absurd (h.symm ▸ mayName_prefix sTrigger) h1.2.2.1
+  -- mayK
+  · exact absurd h.symm (e4 _ _)
+  · exact absurd h.symm (e5 _ _)
+  · exact absurd ((mayName_inj _ _ h).symm ▸ toName_prefix attr _) h1.2.1
+  · exact absurd (h ▸ mayName_prefix _) h2.2.2.1
+  · rw [mayName_inj _ _ h]
+  · exact absurd h (e6 _)
+  · exact absurd (mayName_inj _ _ h) h1.2.2.2
+  -- triggerK
+  · exact absurd h.symm (e1 _)
+  · exact absurd h.symm (e2 _)
+  · exact absurd h.symm (e6 _)
+  · exact absurd h.symm h2.2.2.2
+  · exact absurd h.symm (e6 _)
+  · rfl
+  · exact absurd h e9
+  -- mayTriggerK
+  · exact absurd h.symm (e7 _)
+  · exact absurd h.symm (e8 _)
+  · exact absurd (mayName_inj _ _ h).symm (e2 _)
+  · exact absurd (h ▸ mayName_prefix sTrigger) h2.2.2.1
+  · exact absurd (mayName_inj _ _ h).symm h2.2.2.2
+  · exact absurd h.symm e9
+  · rfl
+
 end Helpers
 end TM
